@@ -1,7 +1,7 @@
 (* C09 - dot product: sign carried by the angle.  Pinned theorems only. *)
 From Coq Require Import ZArith List Bool Reals Lra.
 From Flocq Require Import Core BinarySingleNaN.
-Require Import GV.FloatBase GV.FloatLemmas GV.AngleM GV.AngleProofs GV.GeonumM GV.GeonumProofs GV.TraitsM GV.NewProofs GV.CtorProofs GV.ClosureProofs.
+Require Import GV.FloatBase GV.FloatLemmas GV.AngleM GV.AngleProofs GV.GeonumM GV.GeonumProofs GV.TraitsM GV.NewProofs GV.CtorProofs GV.ClosureProofs GV.TraitsProofs GV.BoundProofs.
 Open Scope R_scope.
 
 (* for EVERY libm: |value| at blade 0 (value >= 0) or blade 2 (value < 0), remainder exactly 0 *)
@@ -31,3 +31,10 @@ Theorem C09_self : forall (L : libm) a, cos_zero_one L -> fin (rem (ang a)) -> f
   dot L a a = {| mag := fmul (mag a) (mag a); ang := {| rem := zero; blade := 0 |} |}.
 Proof. exact dot_self. Qed.
 Print Assumptions C09_self.
+
+(* bounded by |a||b|: under the range hypothesis |cos| <= 1 (finite) the dot magnitude never exceeds fl(|a||b|) *)
+Theorem C09_bound : forall (L : libm) a b, cos_range L -> fin (fmul (mag a) (mag b)) ->
+  Rabs (R_ (fmul (mag a) (mag b))) <= bpow radix2 1000 ->
+  fin (dot_value L a b) /\ R_ (mag (dot L a b)) <= Rabs (R_ (fmul (mag a) (mag b))).
+Proof. exact dot_bound. Qed.
+Print Assumptions C09_bound.
